@@ -4,14 +4,18 @@ CONSTANTS
   MaxVer = 2
   MaxReorgs = 2
   MaxCrashes = 0
-  Gated = TRUE
+  Gates = {"att", "prop"}
+  Interleave = FALSE
   Cfgs <- CfgsGatedOne
   OraclesFor <- SeedOracles
   ScenLen = 10
   Seeds = {2}
   StartSlots = {2}
   MaxHeads = 3
-  Directed = TRUE
+  Stimuli = {"Start", "Reorg", "HeadEvent", "Hold", "Release"}
+  MaxHolds = 99
+  Focus = FALSE
+  Disjoint = FALSE
 INVARIANTS EmitStale
 CONSTRAINT HistBound
 CHECK_DEADLOCK FALSE
